@@ -32,4 +32,34 @@ func init() {
 		"			return errors.Newf(\"unknown channel key: %v\", key)", "			panic(errors.Newf(\"unknown channel key: %v\", key))", "C08.R3.nopanic")
 	mut("C08", "sort order ignores the original position", cgo,
 		"	return s.rawIndices[i] < s.rawIndices[j]\n}", "	return false\n}", "C08.R4.order")
+
+	// ---------------- C16
+	const wdag = "core/pkg/distribution/ontology/writer_dag.go"
+	const oret = "core/pkg/distribution/ontology/retrieve.go"
+	mut("C16", "outgoing scan by the bare id", wdag,
+		"WherePrefix([]byte(key.String()+relationshipKeySep)).\n		Entries(&relationships).", "WherePrefix([]byte(key.String())).\n		Entries(&relationships).", "C16.R1.boundary")
+	mut("C16", "outgoing delete by the bare id", wdag,
+		"		WherePrefix([]byte(from.String()+relationshipKeySep)).", "		WherePrefix([]byte(from.String())).", "C16.R1.boundary")
+	mut("C16", "incoming delete matches any key ending in the id", wdag,
+		"	suffix := []byte(relationshipKeySep + id.String())", "	suffix := []byte(id.String())", "C16.R1.boundary")
+	mut("C16", "type filter by the bare type", oret,
+		"c.WherePrefix([]byte(types[0].String() + \":\"))", "c.WherePrefix([]byte(types[0].String()))", "C16.R1.boundary")
+	mut("C16", "traversal prefix without the trailing separator", oret,
+		"	suffix := []byte(\"->\" + string(relType) + \"->\")", "	suffix := []byte(\"->\" + string(relType))", "C16.R1.boundary")
+	mut("C16", "DeleteResource forgets the incoming edges", wdag,
+		"func (d dagWriter) DeleteResource(ctx context.Context, id ID) error {\n	if err := d.deleteIncomingRelationships(ctx, id); err != nil {\n		return err\n	}\n", "func (d dagWriter) DeleteResource(ctx context.Context, id ID) error {\n", "C16.R2.edges")
+	mut("C16", "DeleteManyResources ignores failures of the edge clean-up", wdag,
+		"		if err := d.deleteOutgoingRelationships(ctx, id); err != nil {\n			return err\n		}\n	}\n	return d.resourceTable.NewDelete().Where(gorp.MatchKeys[string, Resource](IDsToKeys(ids)...)).Exec(ctx, d.tx)", "		_ = d.deleteOutgoingRelationships(ctx, id)\n	}\n	return d.resourceTable.NewDelete().Where(gorp.MatchKeys[string, Resource](IDsToKeys(ids)...)).Exec(ctx, d.tx)", "C16.R2.edges")
+	mut("C16", "DefineRelationship skips the existence check of its endpoints", wdag,
+		"	if err := d.validateResourcesExist(ctx, from, to); err != nil {\n		return err\n	}\n	descendants, err := d.retrieveDescendants(ctx, to)", "	descendants, err := d.retrieveDescendants(ctx, to)", "C16.R3.create")
+	mut("C16", "DefineRelationship validates only the source", wdag,
+		"	if err := d.validateResourcesExist(ctx, from, to); err != nil {", "	if err := d.validateResourcesExist(ctx, from); err != nil {", "C16.R3.create")
+	mut("C16", "cycle test looks at the descendants of the source", wdag,
+		"	descendants, err := d.retrieveDescendants(ctx, to)\n	if err != nil {\n		return err\n	}\n	if _, exists := descendants[from]; exists {", "	descendants, err := d.retrieveDescendants(ctx, from)\n	if err != nil {\n		return err\n	}\n	if _, exists := descendants[from]; exists {", "C16.R3.create")
+	mut("C16", "one-to-many create ignores a detected cycle", wdag,
+		"		if _, exists := descendants[from]; exists {\n			return graph.ErrCyclicDependency\n		}\n	}\n	return d.relationshipTable.NewCreate().Entries(&rels).Exec(ctx, d.tx)", "		if _, exists := descendants[from]; exists {\n			continue\n		}\n	}\n	return d.relationshipTable.NewCreate().Entries(&rels).Exec(ctx, d.tx)", "C16.R3.create")
+	mut("C16", "retrieveDescendants stops at the first childless child", wdag,
+		"		maps.Copy(descendants, childDescendants)\n		descendants[child.ID] = child", "		if len(childDescendants) == 0 {\n			return descendants, nil\n		}\n		maps.Copy(descendants, childDescendants)\n		descendants[child.ID] = child", "C16.R3.create")
+	mut("C16", "existing relationship reported as an error-free create of a duplicate", wdag,
+		"	if err != nil || exists {\n		return err\n	}\n	if err := d.validateResourcesExist(ctx, from, to); err != nil {", "	if err != nil {\n		return err\n	}\n	_ = exists\n	if err := d.validateResourcesExist(ctx, from, to); err != nil {", "C16.R3.create")
 }
